@@ -295,7 +295,10 @@ def connect_site_frames(repo: Repo, reg, prop):
 
 
 ALLOWED_DECORATORS = {"property", "staticmethod", "classmethod", "contextmanager", "asynccontextmanager",
-                      "contextlib.contextmanager", "contextlib.asynccontextmanager", "typing.overload"}
+                      "contextlib.contextmanager", "contextlib.asynccontextmanager", "typing.overload",
+                      # markers without run-time effect on what a call does
+                      "typing.final", "final", "typing.override", "override", "typing_extensions.final", "typing_extensions.override",
+                      "typing.no_type_check", "no_type_check", "abc.abstractmethod", "abstractmethod"}
 
 
 def decorator_frames(repo: Repo, reg, prop):
